@@ -7,7 +7,7 @@ Local Open Scope nat_scope.
 
 (* ------------------------------------------------------------------ what a pc means *)
 
-(* the event a thread is queued on (it created it and has not been admitted since) *)
+(* the event a thread is queued on (it created it and has not been granted since) *)
 Fixpoint wo (p : pc) : option nat :=
   match p with
   | Rel nx => wo nx
@@ -47,7 +47,7 @@ Proof. intros H. unfold upd. destruct (Nat.eqb_spec t' t); [contradiction|reflex
 Lemma wakeup_fields s :
   prg (wakeup s) = prg s /\ pcs (wakeup s) = pcs s /\ lock (wakeup s) = lock s /\
   wtxn (wakeup s) = wtxn s /\ vz (wakeup s) = vz s /\ nextev (wakeup s) = nextev s /\
-  wq (wakeup s) = wq s /\ arrivals (wakeup s) = arrivals s /\ admitted (wakeup s) = admitted s /\
+  wq (wakeup s) = wq s /\ arrivals (wakeup s) = arrivals s /\ granted (wakeup s) = granted s /\
   ended (wakeup s) = ended s.
 Proof. unfold wakeup. destruct (waiters s); cbn; repeat split; reflexivity. Qed.
 
@@ -65,7 +65,7 @@ Proof.
     + destruct (wtxn s) as [t'|].
       * destruct (Nat.eqb t' t).
         -- exists Done. destruct (wakeup_fields (mkSt (prg s) (upd (pcs s) t (Rel Done)) (lock s) None (wevent s)
-             (waiters s) (evset s) (nextev s) z (failed s) (wq s) (arrivals s) (admitted s) (ended s ++ [t])))
+             (waiters s) (evset s) (nextev s) z (failed s) (wq s) (arrivals s) (granted s) (ended s ++ [t])))
              as [H1 [H2 [H3 _]]].
            rewrite H1, H2, H3. cbn. repeat split; reflexivity.
         -- exists Done. cbn. repeat split; reflexivity.
@@ -182,7 +182,7 @@ Record InvB (s : st) : Prop := mkInvB {
   b_s2 : forall e, wevent s = Some e -> mem e (evset s) = true;
   b_s3 : forall t e, psd (pcs s t) = Some e -> mem e (evset s) = true;
   b_s4 : forall e, mem e (evset s) = true -> e < nextev s;
-  b_f1 : arrivals s = admitted s ++ wq s
+  b_f1 : arrivals s = granted s ++ wq s
 }.
 
 Lemma Forall2_in_l {A B} (R : A -> B -> Prop) l1 l2 x :
@@ -228,7 +228,7 @@ Lemma invB_ext s s' :
   (forall t, wo (pcs s' t) = wo (pcs s t)) -> (forall t, act (pcs s' t) = act (pcs s t)) ->
   (forall t e, psd (pcs s' t) = Some e -> psd (pcs s t) = Some e \/ mem e (evset s) = true) ->
   wtxn s' = wtxn s -> wevent s' = wevent s -> waiters s' = waiters s -> evset s' = evset s ->
-  nextev s' = nextev s -> wq s' = wq s -> arrivals s' = arrivals s -> admitted s' = admitted s ->
+  nextev s' = nextev s -> wq s' = wq s -> arrivals s' = arrivals s -> granted s' = granted s ->
   InvB s -> InvB s'.
 Proof.
   intros Hwo Hact Hpsd E1 E2 E3 E4 E5 E6 E7 E8 H. destruct H.
@@ -255,7 +255,7 @@ Qed.
 
 Lemma invB_fields s s' :
   pcs s' = pcs s -> wtxn s' = wtxn s -> wevent s' = wevent s -> waiters s' = waiters s -> evset s' = evset s ->
-  nextev s' = nextev s -> wq s' = wq s -> arrivals s' = arrivals s -> admitted s' = admitted s ->
+  nextev s' = nextev s -> wq s' = wq s -> arrivals s' = arrivals s -> granted s' = granted s ->
   InvB s -> InvB s'.
 Proof.
   intros E0 E1 E2 E3 E4 E5 E6 E7 E8. apply invB_ext; try assumption; intros; rewrite ?E0 in *; tauto.
@@ -273,7 +273,7 @@ Lemma exec_crit_other s t c :
              wtxn (exec_crit s t c) = wtxn s /\ wevent (exec_crit s t c) = wevent s /\
              waiters (exec_crit s t c) = waiters s /\ evset (exec_crit s t c) = evset s /\
              nextev (exec_crit s t c) = nextev s /\ wq (exec_crit s t c) = wq s /\
-             arrivals (exec_crit s t c) = arrivals s /\ admitted (exec_crit s t c) = admitted s /\
+             arrivals (exec_crit s t c) = arrivals s /\ granted (exec_crit s t c) = granted s /\
              ended (exec_crit s t c) = ended s.
 Proof.
   intros N1 N2. destruct c as [ev|id c cm|sel|h|p]; cbn [exec_crit].
@@ -309,7 +309,7 @@ Qed.
 
 (* a writer that has been woken (it passed event.wait()) finds the zone free and its own event
    in _write_event: the admission test cannot fail for it *)
-Lemma woken_admits s t e :
+Lemma woken_is_granted s t e :
   InvB s -> psd (pcs s t) = Some e -> wo (pcs s t) = Some e -> wtxn s = None /\ wevent s = Some e.
 Proof.
   intros H Hp Hwo.
@@ -325,12 +325,12 @@ Proof.
   - rewrite (b_s1 s H e He') in Hset. discriminate.
 Qed.
 
-Lemma admit_B s t ev :
+Lemma grant_B s t ev :
   InvB s -> pcs s t = Crit (CWriterTest ev) -> wtxn s = None -> ev = wevent s ->
   InvB (mkSt (prg s) (upd (pcs s) t (Rel SetupId)) (lock s) (Some t) None (waiters s) (evset s)
              (nextev s) (vz s) (failed s) (match ev with None => wq s | Some _ => tl (wq s) end)
              (match ev with None => arrivals s ++ [t] | Some _ => arrivals s end)
-             (admitted s ++ [t]) (ended s)).
+             (granted s ++ [t]) (ended s)).
 Proof.
   intros H Hpc Hw Hev.
   assert (Hother : forall t', t' <> t -> act (pcs s t') = false).
@@ -412,12 +412,12 @@ Lemma enqueue_B s t ev :
   ev = None /\
   InvB (mkSt (prg s) (upd (pcs s) t (Rel (Wait (nextev s)))) (lock s) (wtxn s) (wevent s)
              (waiters s ++ [nextev s]) (evset s) (S (nextev s)) (vz s) (failed s) (wq s ++ [t])
-             (arrivals s ++ [t]) (admitted s) (ended s)).
+             (arrivals s ++ [t]) (granted s) (ended s)).
 Proof.
   intros H Hpc Htest.
   assert (Hev : ev = None).
   { destruct ev as [e|]; [|reflexivity]. exfalso.
-    destruct (woken_admits s t e H) as [Hw He]; [rewrite Hpc; reflexivity|rewrite Hpc; reflexivity|].
+    destruct (woken_is_granted s t e H) as [Hw He]; [rewrite Hpc; reflexivity|rewrite Hpc; reflexivity|].
     rewrite Hw, He in Htest. cbn in Htest. rewrite Nat.eqb_refl in Htest. discriminate. }
   split; [exact Hev|]. subst ev.
   assert (Hnin : ~ In t (wq s)).
@@ -425,7 +425,7 @@ Proof.
   assert (Hact : act (pcs s t) = false) by (rewrite Hpc; reflexivity).
   assert (HQ : Q (mkSt (prg s) (upd (pcs s) t (Rel (Wait (nextev s)))) (lock s) (wtxn s) (wevent s)
              (waiters s ++ [nextev s]) (evset s) (S (nextev s)) (vz s) (failed s) (wq s ++ [t])
-             (arrivals s ++ [t]) (admitted s) (ended s)) = Q s ++ [nextev s]).
+             (arrivals s ++ [t]) (granted s) (ended s)) = Q s ++ [nextev s]).
   { unfold Q. cbn. rewrite app_assoc. reflexivity. }
   constructor; rewrite ?HQ; cbn.
   - intros t' E. destruct (Nat.eq_dec t' t) as [->|Hn].
@@ -464,7 +464,7 @@ Proof. unfold mem. cbn. intros ->. apply orb_true_r. Qed.
 Lemma end_B s t z :
   InvB s -> act (pcs s t) = true -> wo (pcs s t) = None ->
   InvB (wakeup (mkSt (prg s) (upd (pcs s) t (Rel Done)) (lock s) None (wevent s) (waiters s)
-                     (evset s) (nextev s) z (failed s) (wq s) (arrivals s) (admitted s) (ended s ++ [t]))).
+                     (evset s) (nextev s) z (failed s) (wq s) (arrivals s) (granted s) (ended s ++ [t]))).
 Proof.
   intros H Hact Hwo.
   assert (Hw : wtxn s = Some t) by (apply (b_w2 s H); exact Hact).
@@ -549,7 +549,7 @@ Proof.
       destruct ((match wtxn s with None => true | Some _ => false end) && oeqb ev (wevent s)) eqn:Ht.
       * apply andb_true_iff in Ht. destruct Ht as [Hw Hev]. apply oeqb_eq in Hev.
         destruct (wtxn s) eqn:Ew; [discriminate|].
-        exact (admit_B s t ev H Hpc Ew Hev).
+        exact (grant_B s t ev H Hpc Ew Hev).
       * destruct (enqueue_B s t ev H Hpc Ht) as [-> HB]. exact HB.
     + cbn [exec_crit].
       assert (Hact : act (pcs s t) = true) by (rewrite Hpc; reflexivity).
